@@ -179,7 +179,7 @@ func TestVerif_C11(t *testing.T) {
 	r.Assume("backend Save/Remove are atomic (C36)", "goroutine interleaving between two backend events is the Go runtime's choice")
 	oracle.LowKDF()
 	fx := verifC11Build(t, r, r.Thorough())
-	bound := vh.Pick(r, 1, 2)
+	bound := vh.Pick(r, 1, 3)
 	seen := map[string]bool{}
 	tm := time.Date(2022, 2, 2, 2, 2, 2, 0, time.UTC)
 
